@@ -3,7 +3,7 @@
 # demonstration fails with the change and passes without it.  usage: confirm_seeded.sh <prop> <name>
 set -u
 ID=$1; NAME=$2
-WT=/tmp/mut/$ID; SRC=/tmp/mut/out/$ID/$NAME
+WT=/tmp/mut/$ID; SRC=${SEEDED_SRC:-/tmp/mut/out}/$ID/$NAME
 export CARGO_TARGET_DIR=$WT/target CARGO_NET_OFFLINE=true
 cd $WT || exit 2
 git checkout -q -- . ; rm -f tests/seeded_demo.rs
